@@ -183,6 +183,35 @@ def campaign(pid, plans, nontrivial, what):
     return {"level": "model_checking", "coverage": cov, "violations": violations}
 
 
+def unix_handles(wd, name, chans=2, procs=2, maxops=6, maxclones=2, variant="code", timeout=3000, workers=8):
+    """TLC on UnixHandles.tla: the descriptor-level account of 'a sender handle exists' / 'the receiving end exists'
+    (clones share one descriptor, references in flight, cascading destruction, process exit) agrees with the handle
+    view Channels.tla uses."""
+    cfg = os.path.join(wd, "uh-%s.cfg" % name)
+    with open(cfg, "w") as f:
+        f.write("SPECIFICATION Spec\nCONSTANTS\n  Chans = {%s}\n  Procs = {%s}\n  MaxOps = %d\n  MaxClones = %d\n"
+                "  Variant = \"%s\"\nINVARIANTS DisconnectedIffNoSender BrokenPipeIffNoReceiver DescriptorsMatchHandles "
+                "DeadIsGone\n" % (", ".join(map(str, range(1, chans + 1))), ", ".join(map(str, range(1, procs + 1))),
+                                  maxops, maxclones, variant))
+    return run_tlc(os.path.join(SPEC, "UnixHandles.tla"), cfg, workers=workers, timeout=timeout)
+
+
+def add_unix_handles(pid, res, wd, configs):
+    for name, kw in configs:
+        r = unix_handles(wd, name, **kw)
+        require_ok(r, "UnixHandles " + name)
+        if r.violation:
+            rp = write_replay(pid, "uh-" + name, {"property": pid, "kind": "model", "invariant": r.violation,
+                                                  "trace": r.trace[:6000]})
+            res["violations"].append({"what": "UnixHandles.tla: %s violated" % r.violation, "replay": rp, "key": "model-uh"})
+        else:
+            res["coverage"]["states"] += r.distinct
+            res["coverage"]["transitions"] += r.generated
+            res["coverage"].setdefault("unix_handles", []).append({"config": kw, "distinct_states": r.distinct})
+            log("  UnixHandles %s: %d distinct states, descriptor view agrees with handle view (%.1fs)" % (
+                name, r.distinct, r.wall))
+
+
 def replay_one(rp):
     pid = rp["property"]
     if rp.get("kind") != "chan":
